@@ -91,13 +91,16 @@ def maxSigs : Nat := 100
 
 /-! ## names, key strings -/
 
-/-- isValidName: non-empty, valid UTF-8, no Unicode space, no '+' -/
+/-- isValidName: non-empty, valid UTF-8, no Unicode space, no '+', no ASCII control character -/
 def isValidName (name : Bytes) : Bool :=
   !name.isEmpty &&
   (match runesOf name with
    | none => false
    | some rs => !rs.any isSpace) &&
-  !name.contains 43
+  !name.contains 43 &&
+  (match runesOf name with
+   | none => true     -- strings.IndexFunc sees RuneError (0xFFFD) at ill-formed bytes; excluded above
+   | some rs => !rs.any (fun r => r < 0x20))
 
 /-- chop: split at the first occurrence of sep; (s, "") when absent -/
 def chop (s sep : Bytes) : Bytes × Bytes :=
